@@ -60,7 +60,7 @@ def totality(ctx, rep, rule, entries, reviewed, exempt_fns=(), trusted_fns=(), s
             if site.status == "discharged":
                 rep.ob(rule, key, True, "%s `%s` discharged: %s" % (site.kind, site.desc, site.why or "dominating guards"), at)
                 continue
-            if site.status == "exported" and fid not in eids and fid not in cg.indirect_targets:
+            if site.status == "exported" and fid not in eids and (fid not in cg.indirect_targets or fid in pa.closure_instantiated):
                 rep.ob(rule, key, True, "%s `%s` is a precondition over the parameters, discharged at each call site" % (site.kind, site.desc), at)
                 continue
             why = reviewed.get(key)
@@ -118,6 +118,10 @@ def loops(ctx, rep, rule, R, reviewed, finite_iters=()):
                     ir = IR(body)
                 if not _none_edge_leaves(body, ir, bi, t, cs):
                     continue
+                if f in prog.bodies and finite_wrapper(prog, f):
+                    ok = True
+                    why = "driven by %s, a loop-free wrapper that yields None when its inner std iterator does" % f
+                    break
                 self_ty = f[1:].split(" as ")[0] if f.startswith("<") else ""
                 if self_ty.startswith("&mut "):
                     self_ty = self_ty[5:]
@@ -134,6 +138,11 @@ def loops(ctx, rep, rule, R, reviewed, finite_iters=()):
                     ok = True
                     why = "driven by a caller-supplied iterator, leaves on None"
                     break
+            if not ok:
+                cw = _consuming_reader_loop(prog, body, ir or IR(body), cs)
+                if cw:
+                    ok = True
+                    why = cw
             if ok:
                 rep.ob(rule, key, True, "cycle " + why, at)
                 continue
@@ -173,6 +182,13 @@ def _none_edge_leaves(body, ir, bi, t, cs):
                 base = e[1]
                 while base[0] in ("deref", "ref"):
                     base = base[1] if base[0] == "deref" else base[2]
+                n_ = 0
+                while base[0] == "call" and base[2] and n_ < 4 and base[1].rsplit("::", 1)[-1] in (
+                        "copied", "cloned", "map", "as_ref", "as_mut") and "option::Option" in base[1]:
+                    base = base[2][0]
+                    n_ += 1
+                    while base[0] in ("deref", "ref"):
+                        base = base[1] if base[0] == "deref" else base[2]
                 if (base[0] == "call" and base[3] == (body.id, bi)) or (base[0] == "var" and base[1] == l):
                     # None is discriminant 0
                     none_t = None
@@ -189,3 +205,168 @@ def _none_edge_leaves(body, ir, bi, t, cs):
         elif tt["k"] in ("drop",):
             work.append(tt["t"])
     return False
+
+
+def standard_totality(ctx, rep, pid, tables, rule="R-no-panic", extra_reviewed=None, loop_reviewed=None,
+                      exempt_fns=(), trusted_fns=(), skip_fns=(), do_loops=True, entries=None):
+    from .entries import entries_for
+    from . import tables as T
+    reviewed = T.load(*tables)
+    if extra_reviewed:
+        reviewed.update(extra_reviewed)
+    ents = entries if entries is not None else entries_for(ctx.prog, pid)
+    if not ents:
+        raise AnchorLost("no entry points resolved for " + pid)
+    R, pa = totality(ctx, rep, rule, ents, reviewed, exempt_fns=exempt_fns, trusted_fns=trusted_fns, skip_fns=skip_fns)
+    if do_loops:
+        lr = T.loops(*tables)
+        if loop_reviewed:
+            lr.update(loop_reviewed)
+        loops(ctx, rep, rule.replace("no-panic", "loops") if "no-panic" in rule else rule + "-loops", R, lr)
+    return R, pa
+
+
+_FW = {}
+
+
+def _is_std_finite_next(t):
+    f = t.get("callee") or ""
+    raw = t.get("rf") or t.get("f") or ""
+    if any(x in raw for x in ("RangeFrom", "Repeat", "Cycle", "FromFn", "Successors")):
+        return False
+    if f.startswith("std::") and (f.endswith("::next") or f.endswith("::next_back")) and f != "std::iter::Iterator::next":
+        return True
+    if f.endswith("as std::iter::Iterator>::next") or f.endswith("as std::iter::DoubleEndedIterator>::next_back"):
+        self_ty = f[1:].split(" as ")[0]
+        if self_ty.startswith("&mut "):
+            self_ty = self_ty[5:]
+        return any(self_ty.startswith(p) for p in STD_FINITE_ITERS)
+    return False
+
+
+def finite_wrapper(prog, fid, depth=0):
+    """workspace `Iterator::next` that has no loop of its own and whose every Some result is
+    produced from the Some of a finite inner iterator (so it ends when the inner one ends)"""
+    if fid in _FW and _FW[fid][0] is prog:
+        return _FW[fid][1]
+    _FW[fid] = (prog, False)
+    body = prog.bodies.get(fid)
+    res = False
+    if body is not None and not body.sccs() and depth < 3:
+        ir = IR(body)
+        inner = []
+        for bi, t in body.calls():
+            f = t.get("callee") or ""
+            if _is_std_finite_next(t) or (f in prog.bodies and f != fid and f.rsplit("::", 1)[-1] in ("next", "next_back")
+                                          and finite_wrapper(prog, f, depth + 1)):
+                inner.append(bi)
+        if inner:
+            # the returned Option is `inner.map(..)`-like, or every Some aggregate is dominated by inner's Some edge
+            ok = True
+            some_sites = []
+            for bi in sorted(body.live):
+                for si, st in enumerate(body.blocks[bi]["st"]):
+                    if st["k"] == "assign" and st["p"]["l"] == 0 and not st["p"].get("pr"):
+                        r = st["r"]
+                        if r["k"] == "agg" and r.get("variant") == "Some":
+                            some_sites.append(bi)
+                        elif r["k"] == "agg" and r.get("variant") == "None":
+                            pass
+                        else:
+                            ok = False
+                t = body.blocks[bi]["term"]
+                if t["k"] == "call" and t["dest"]["l"] == 0 and not t["dest"].get("pr"):
+                    e = ir.call_expr(bi, t)
+                    n_ = 0
+                    while e[0] == "call" and e[2] and n_ < 5 and e[1].rsplit("::", 1)[-1] in ("map", "copied", "cloned", "and_then", "filter"):
+                        e = e[2][0]
+                        n_ += 1
+                    if not (e[0] == "call" and isinstance(e[3], tuple) and e[3][0] == body.id and e[3][1] in inner):
+                        ok = False
+            for sb in some_sites:
+                dom = False
+                for e, rel, v, edge, dty in ir.edge_conditions(sb):
+                    if e[0] == "discr":
+                        base = e[1]
+                        while base[0] in ("deref", "ref"):
+                            base = base[1] if base[0] == "deref" else base[2]
+                        if base[0] == "call" and isinstance(base[3], tuple) and base[3][1] in inner and (
+                                (rel == "==" and v == 1) or (rel == "notin" and 0 in v)):
+                            dom = True
+                if not dom:
+                    ok = False
+            res = ok
+    _FW[fid] = (prog, res)
+    return res
+
+
+# functions that consume at least one unit of a finite input on success and fail once it is exhausted
+CONSUMERS = (
+    "libtw2_packer::Unpacker::read_int", "libtw2_packer::Unpacker::read_string", "libtw2_packer::Unpacker::read_data",
+    "libtw2_packer::IntUnpacker::read_int", "libtw2_snapshot::snap::read_int_err",
+    "libtw2_snapshot::read_int::ReadInt::read_int", "libtw2_net::protocol::ChunksIter::next_warn",
+    "libtw2_net::protocol7::ChunksIter::next_warn",
+)
+
+
+def _consuming_reader_loop(prog, body, ir, cs):
+    """every cycle of the component passes a call to a consuming reader whose result is tested by
+    a branch that can leave the component (the failure / None arm)"""
+    cons = []
+    for bi in cs:
+        t = body.blocks[bi]["term"]
+        if t["k"] == "call":
+            f = t.get("callee") or ""
+            if any(f == c or f.endswith(" as " + c.rsplit("::", 1)[0] + ">::" + c.rsplit("::", 1)[1]) for c in CONSUMERS) or \
+               any(f == c for c in CONSUMERS):
+                cons.append(bi)
+    if not cons:
+        return None
+    # removing the consumer blocks must break every cycle
+    rest = cs - set(cons)
+    # DFS cycle detection on the induced subgraph
+    color = {}
+
+    def dfs(v):
+        color[v] = 1
+        for w in body.succ[v]:
+            if w not in rest:
+                continue
+            if color.get(w) == 1:
+                return True
+            if color.get(w) is None and dfs(w):
+                return True
+        color[v] = 2
+        return False
+
+    import sys
+    sys.setrecursionlimit(10000)
+    for v in rest:
+        if color.get(v) is None and dfs(v):
+            return None
+    # each consumer's result is tested with an exit
+    for bi in cons:
+        t = body.blocks[bi]["term"]
+        seen = set()
+        work = [t.get("t")]
+        leaves = False
+        steps = 0
+        while work and steps < 30:
+            b = work.pop()
+            steps += 1
+            if b is None or b in seen:
+                continue
+            seen.add(b)
+            tt = body.blocks[b]["term"]
+            if tt["k"] == "switch":
+                if any(s not in cs for s in body.succ[b]):
+                    leaves = True
+                    break
+                continue
+            for s in body.succ[b]:
+                work.append(s)
+        if not leaves:
+            return None
+    names = sorted(set((body.blocks[b]["term"].get("callee") or "").rsplit("::", 2)[-2] + "::" +
+                       (body.blocks[b]["term"].get("callee") or "").rsplit("::", 1)[-1] for b in cons))
+    return "consumes its finite input: every cycle passes %s, whose failure arm leaves the loop" % ", ".join(names)
